@@ -107,6 +107,12 @@ func runC13(r *simkit.Run) {
 		for i := 0; i < n; i++ {
 			tis = append(tis, w.txOrdinary(weights))
 		}
+		if c.Chance(120, "eon-superseded-block") {
+			// every keyper of the newest eon reports failure: the eon is superseded (its
+			// bookkeeping must stay what it is, whenever the node saves)
+			tis = append(tis, w.churnBlock()...)
+			r.Probe("eon-superseded-blocks")
+		}
 		b := w.execBlock(tis)
 		hist = append(hist, &c13Block{txs: b.Txs, sleep: time.Duration(c.Intn(25, "sleep-s")) * time.Second, ref: b})
 	}
